@@ -91,6 +91,9 @@ macro_rules! each_variant {
             MainFn::OptTrk($x) => MainFn::OptTrk($e),
             MainFn::TrkV($x) => MainFn::TrkV($e),
             MainFn::VerdI64($x) => MainFn::VerdI64($e),
+            MainFn::VerdUU($x) => MainFn::VerdUU($e),
+            MainFn::VerdIU($x) => MainFn::VerdIU($e),
+            MainFn::VerdUI($x) => MainFn::VerdUI($e),
         }
     };
 }
@@ -182,6 +185,36 @@ fn into_caller(f: MainFn) -> Box<dyn Fn() -> V> {
                 let r = g();
                 exempt(move || match r {
                     roto::Verdict::Accept(x) => V::Enum(0, "Accept".into(), vec![V::Int(IntTy::I64, x as i128)]),
+                    roto::Verdict::Reject(x) => V::Enum(1, "Reject".into(), vec![V::Int(IntTy::I64, x as i128)]),
+                })
+            })
+        }
+        MainFn::VerdUU(f) => {
+            let g = f.into_func();
+            Box::new(move || {
+                let r = g();
+                exempt(move || match r {
+                    roto::Verdict::Accept(()) => V::Enum(0, "Accept".into(), vec![V::Unit]),
+                    roto::Verdict::Reject(()) => V::Enum(1, "Reject".into(), vec![V::Unit]),
+                })
+            })
+        }
+        MainFn::VerdIU(f) => {
+            let g = f.into_func();
+            Box::new(move || {
+                let r = g();
+                exempt(move || match r {
+                    roto::Verdict::Accept(x) => V::Enum(0, "Accept".into(), vec![V::Int(IntTy::I64, x as i128)]),
+                    roto::Verdict::Reject(()) => V::Enum(1, "Reject".into(), vec![V::Unit]),
+                })
+            })
+        }
+        MainFn::VerdUI(f) => {
+            let g = f.into_func();
+            Box::new(move || {
+                let r = g();
+                exempt(move || match r {
+                    roto::Verdict::Accept(()) => V::Enum(0, "Accept".into(), vec![V::Unit]),
                     roto::Verdict::Reject(x) => V::Enum(1, "Reject".into(), vec![V::Int(IntTy::I64, x as i128)]),
                 })
             })
